@@ -9,7 +9,8 @@ import pandas as pd
 from fv import design
 
 RICH_NUM = ["x", "z", "binary(f, 'a')", "B(g)", "center(x)", "scale(z)", "bs(x, df=4)", "poly(z, 2)", "np.log(z)", "I(x ** 2)", "bs(z, df=3, degree=2)", "standardize(x)", "poly(x, 2, raw=True)", "scale(center(z))",
-            "bs(x, knots=KN)", "bs(z, knots=KZ, degree=2, intercept=True)", "poly(xc, 2)", "center(xc)", "poly(xc, 3)"]
+            "bs(x, knots=KN)", "bs(z, knots=KZ, degree=2, intercept=True)", "poly(xc, 2)", "center(xc)", "poly(xc, 3)",
+            "ustd(x)", "ustd(center(z), shift=1)"]
 RICH_CAT = ["f", "g", "h", "o", "C(k)", "C(f, Sum)", "T(h, 'B-y')", "S(g)", "C(k, levels=KL)", "I(f)"]
 
 
@@ -46,6 +47,23 @@ def gen_text_formula(rng, groups=True, rich=True, max_terms=4):
     return "y ~ " + " + ".join(parts)
 
 
+class UserStd:
+    """A user-defined stateful transform (the attribute is what register_stateful_transform sets):
+    parameters are fitted on the first call and remembered."""
+
+    __stateful_transform__ = True
+
+    def __init__(self):
+        self.m = None
+        self.s = None
+
+    def __call__(self, x, shift=0):
+        if self.m is None:
+            self.m = float(np.mean(x))
+            self.s = float(np.std(x)) + 1.0
+        return (x - self.m) / self.s + shift
+
+
 def namespace(w, rng=None):
     """Names the rich formulas take from the caller: explicit levels and explicit spline knots
     (strictly inside the range of the training data)."""
@@ -53,7 +71,7 @@ def namespace(w, rng=None):
     kl = sorted(set(w.cols["k"]["v"]))
     if rng is not None and rng.random() < 0.5:
         kl = kl[::-1]
-    return {"KL": kl, "KN": [float(np.percentile(xs, 35)), float(np.percentile(xs, 70))], "KZ": [float(np.percentile(zs, 50))]}
+    return {"ustd": UserStd, "KL": kl, "KN": [float(np.percentile(xs, 35)), float(np.percentile(xs, 70))], "KZ": [float(np.percentile(zs, 50))]}
 
 
 def intern(mats, tol=1e-9):
